@@ -73,10 +73,48 @@ def attempt(fh, ident, fn):
     fh.write(json.dumps(r) + "\n")
 
 
+def disturb_failed_dumps():
+    """a dumps() that fails half-way (an unmarshallable object inside a container): nothing of it may survive into the next call"""
+    try:
+        with xd.quiet():
+            xm.dumps([1, 2.5, "text", object()])
+    except Exception:
+        pass
+
+
+def disturb_code2_dumps():
+    """marshalling a Python-2 code object (what write_bytecode_file does for a 2.x file): the writer's tables must be as before afterwards"""
+    import glob
+    import os
+    import xdis
+    import xdis.load as xload
+    fl = sorted(glob.glob(os.path.join(os.path.dirname(os.path.dirname(xdis.__file__)), "test", "bytecode_2.7", "*.pyc")))
+    if not fl:
+        return
+    try:
+        with xd.quiet():
+            saved = xload.PYTHON_MAGIC_INT
+            xload.PYTHON_MAGIC_INT = -1
+            try:
+                co = xload.load_module(fl[0])[3]
+            finally:
+                xload.PYTHON_MAGIC_INT = saved
+            xm.dumps(co)
+    except Exception:
+        pass
+
+
 def main():
     out, inp = sys.argv[1], sys.argv[2]
+    lines = open(inp).readlines()
     with open(out, "w") as fh:
-        for line in open(inp):
+        for n_, line in enumerate(lines):
+            # the first third of the values sees a pristine module; then every fifth value follows a failed dumps(), and the last third
+            # follows the marshalling of a Python-2 code object: xdis.marsh.dumps/loads are functions of their argument alone
+            if n_ >= len(lines) // 3 and n_ % 5 == 0:
+                disturb_failed_dumps()
+            if n_ == (2 * len(lines)) // 3:
+                disturb_code2_dumps()
             item = json.loads(line)
             v, _ = untok(item["tok"])
             vid = item["id"]
